@@ -32,9 +32,14 @@ def step (st : St) (toks : List String) : St × String :=
       | none => (st, "err")
     | none => (st, "bad-op")
   | "endblock" :: rest =>
-    match lookupNat rest "t", (lookup rest "infl").bind parse01 with
-    | some t, some infl =>
-      match Ubi.endBlock (view st) t infl with
+    -- room=<n>: what may still be minted before InflationPossible turns false; room=inf: the gate cannot close
+    let room? : Option (Option Nat) := match lookup rest "room" with
+      | some "inf" => some none
+      | some x => (nat? x).map some
+      | none => none
+    match lookupNat rest "t", room? with
+    | some t, some room =>
+      match Ubi.endBlock (view st) t room with
       | .ok (u, paid) => (back st u, "ok " ++ toString ((paid.map (·.2)).foldl (· + ·) 0))
       | .error .err => (st, "err")
       | .error .panic => (st, "panic")
